@@ -60,8 +60,8 @@ theorem forgetOne_keep (e : Env) (hk : e.useHostIno = false) (s : St) (i : Ino) 
         · rename_i e1; subst e1; cases h; exact ⟨d0, hd0, rfl, rfl⟩
         · exact ⟨d, h, rfl, rfl⟩
 
-theorem Tr.fresh {e : Env} (hk : e.useHostIno = false) {b : Bool} {s s' : St} {sp sp' : Spec}
-    (h : Tr e b s sp s' sp') (f : Fresh s) (hc : s.clobbered = false) :
+theorem Tr.fresh {e : Env} {nf : Bool} (hk : e.useHostIno = false) {b : Bool} {s s' : St} {sp sp' : Spec}
+    (h : Tr e nf b s sp s' sp') (f : Fresh s) (hc : s.clobbered = false) :
     Fresh s' ∧ s'.clobbered = false := by
   induction h with
   | frame hd hc' hl hb hy hn =>
